@@ -602,3 +602,20 @@ def with_epoch_pending(scns, family_of=None):
         s2["phases"] = ph
         out.append(s2)
     return out
+
+
+def added_stream_waits(prefix, caps=(1, 2)):
+    """futures: a stream created by add_stream is polled by a task that waits for its wake-up while a sink
+    task sends; the parent keeps receiving too"""
+    out = []
+    for k, cap in enumerate(caps):
+        setup = [S("add_stream", "rx", new="n1")]
+        threads = [sends("tx", 101, cap + 1, api="fsend", drop=True), [S("frecv_all", "n1")], [S("frecv_all", "rx")]]
+        out.append(scenario("%s-F-c%d-%d" % (prefix, cap, k), "bcast", True, cap, "busy", setup, threads,
+                            [S("drop", "rx"), S("drop", "n1")], spins=[0, 0]))
+        # the stream is added inside the phase, by the task that then waits on it
+        threads = [sends("tx", 101, cap + 1, api="fsend", drop=True),
+                   [S("add_stream", "rx", new="n2"), S("frecv_all", "n2")], ]
+        out.append(scenario("%s-F-in-c%d-%d" % (prefix, cap, k), "bcast", True, cap, "busy", [], threads,
+                            [S("drain", "rx"), S("drop", "rx"), S("drop", "n2")], spins=[0, 0]))
+    return out
